@@ -38,6 +38,7 @@ def _masses():
             lambda t: {"m1": t[0], "m2": t[1]}),
         st.tuples(gen.loguniform(10.0, 500.0), gen.loguniform(1e-3, 1e3)).map(
             lambda t: {"m1": t[0], "m2": t[0] * t[1]}),
+        st.tuples(st.integers(1, 300), st.integers(1, 300)).map(lambda t: {"m1": t[0], "m2": t[1]}),  # Python ints (18, 46)
     )
 
 
